@@ -852,6 +852,7 @@ func Unzip(dir string, m module.Version, zipFile string) (err error) {
 	// Check that the directory is empty. Don't create it yet in case there's
 	// an error reading the zip.
 	files, err := os.ReadDir(dir)
+	files, err = simListing(dir, files, err)
 	if err != nil && !os.IsNotExist(err) {
 		// The directory exists but cannot be listed: it cannot be shown to be empty.
 		return err
